@@ -192,6 +192,11 @@ structure Leader (β : Type) where
   /-- stream bytes the leader's input appends while a stream reader of this session is
       open (after its `META` announcement): a live leader keeps growing -/
   tail : List β
+  /-- the leader is stopped (steps down, its syncer's wait is closed) during the data
+      transfer of this request: `some (k, fault)` = `k` CONTINUE messages got out, then the
+      handler ended — cleanly (`sendData`'s loop saw the closed wait: end of stream, no
+      message) or, `fault`, with a `FAULT` answer (its reader was closed under it) -/
+  halt : Option (Nat × Bool) := none
 
 def Leader.hasSegs (L : Leader β) (d : Data β) : Bool := !d.bytes.isEmpty || L.wopen
 
@@ -209,9 +214,26 @@ def Leader.valid (L : Leader β) (rid : Id) (off : Int) : Bool :=
   | none => false
   | some d => L.inAof d off || inRdb d off
 
-/-- how the handler's stream ends once its messages are consumed -/
-inductive Fin | blocks | eof | err
+/-- the error `ServiceReplica` returns to `SyncerCmd.Sync` (cmd/syncer_api.go), by what Sync
+    does with it: `brk` wraps `ErrBreak` (restart/quit), `role` wraps `ErrRole` -/
+inductive SrvErr | plain | role | brk
 deriving DecidableEq, Repr
+
+/-- how the handler's stream ends once its messages are consumed -/
+inductive Fin | blocks | eof | err (k : SrvErr)
+deriving DecidableEq, Repr
+
+/-- what `SyncerCmd.Sync` does after `ServiceReplica` returned -/
+inductive React | nothing | stopSyncer | stopAll
+deriving DecidableEq, Repr
+
+/-- cmd/syncer_api.go `Sync`: an `ErrBreak` stops every syncer of the process (restart), an
+    `ErrRole` (hand-over) stops this input's syncer — `runCluster` then resigns the lease
+    and pauses, so that the follower that was offered leadership can win the campaign -/
+def syncReact : Fin → React
+  | .err .brk => .stopAll
+  | .err .role => .stopSyncer
+  | _ => .nothing
 
 structure Reply (β : Type) where
   msgs : List (Msg β)
@@ -225,22 +247,31 @@ structure Reply (β : Type) where
     is answered with `ERROR`; then the `META` announcement and the `CONTINUE` chunks. -/
 def Leader.sendData (L : Leader β) (rid : Id) (off : Int) (ch : List Nat) : Reply β :=
   match L.data with
-  | none => ⟨[ctl .clear], .err, ch⟩
+  | none => ⟨[ctl .clear], .err .plain, ch⟩
   | some d =>
     if L.inAof d off then
-      if L.cur ≠ rid then ⟨[ctl .error], .err, ch⟩
+      if L.cur ≠ rid then ⟨[ctl .error], .err .plain, ch⟩
       else
         let r := chop ch (d.bytes.drop (off - (d.base : Int)).toNat ++ L.tail)
-        ⟨⟨.info, "", true, off, -1, []⟩ :: conts off r.1, .blocks, r.2⟩
+        match L.halt with
+        | none => ⟨⟨.info, "", true, off, -1, []⟩ :: conts off r.1, .blocks, r.2⟩
+        | some (k, fault) =>
+          ⟨⟨.info, "", true, off, -1, []⟩ :: (conts off (r.1.take k) ++ if fault then [ctl .fault] else []),
+            if fault then .err .plain else .eof, r.2⟩
     else match d.snap with
-      | none => ⟨[ctl .clear], .err, ch⟩
+      | none => ⟨[ctl .clear], .err .plain, ch⟩
       | some s =>
         if off ≤ (d.base : Int) then
-          if L.cur ≠ rid then ⟨[ctl .error], .err, ch⟩
+          if L.cur ≠ rid then ⟨[ctl .error], .err .plain, ch⟩
           else
             let r := chop ch s
-            ⟨⟨.info, "", false, d.base, s.length, []⟩ :: conts off r.1, .eof, r.2⟩
-        else ⟨[ctl .clear], .err, ch⟩
+            match L.halt with
+            | none => ⟨⟨.info, "", false, d.base, s.length, []⟩ :: conts off r.1, .eof, r.2⟩
+            | some (k, fault) =>
+              ⟨⟨.info, "", false, d.base, s.length, []⟩ ::
+                  (conts off (r.1.take k) ++ if fault then [ctl .fault] else []),
+                if fault then .err .plain else .eof, r.2⟩
+        else ⟨[ctl .clear], .err .plain, ch⟩
 
 /-- the leader's state as `ServiceReplica`/`Handle` read it during ONE request. The
     leader's own input may switch run id, re-read or replace the cache between the reads:
@@ -257,10 +288,10 @@ def View.const (L : Leader β) : View β := ⟨L, L, L, L⟩
 /-- `ServiceReplica` + `ReplicaLeader.Handle` for the request `(rid, roff)`; `ch` are the
     sizes of the successive `ioReader.Read` results. -/
 def View.handle (v : View β) (rid : Id) (roff : Int) (ch : List Nat) : Reply β :=
-  if !v.l1.serving then ⟨[ctl .failure], .err, ch⟩
-  else if !v.l1.started then ⟨[], .err, ch⟩
+  if !v.l1.serving then ⟨[ctl .failure], .err .plain, ch⟩
+  else if !v.l1.started then ⟨[], .err .plain, ch⟩
   else match v.l1.inputIds with
-  | [] => ⟨[ctl .failure], .err, ch⟩
+  | [] => ⟨[ctl .failure], .err .brk, ch⟩
   | i0 :: _ =>
     -- selfInspection answers "wait a moment" with CLEAR when the channel's id is not the
     -- input's newest — and returns no error, so Handle goes on after it
@@ -268,9 +299,9 @@ def View.handle (v : View β) (rid : Id) (roff : Int) (ch : List Nat) : Reply β
     let rp : Reply β :=
       if rid = "" || rid = "?" then
         ⟨[⟨.info, v.l2.cur, false, latest v.l2.data, 0, []⟩], .eof, ch⟩
-      else if v.l2.inputIds.head? ≠ some rid then ⟨[ctl .error], .err, ch⟩
+      else if v.l2.inputIds.head? ≠ some rid then ⟨[ctl .error], .err .plain, ch⟩
       else if roff - latest v.l2.data > 0 then
-        ⟨[⟨.handover, v.l2.cur, false, latest v.l2.data, 0, []⟩], .err, ch⟩
+        ⟨[⟨.handover, v.l2.cur, false, latest v.l2.data, 0, []⟩], .err .role, ch⟩
       else v.l4.sendData rid (if v.l3.valid rid roff then roff else latest v.l2.data) ch
     ⟨pre ++ rp.msgs, rp.fin, rp.rest⟩
 
@@ -307,7 +338,7 @@ def respErr : Code → Option Cls
 def finCls : Fin → Cls
   | .blocks => .cut
   | .eof => .eof
-  | .err => .rpcerr
+  | .err _ => .rpcerr
 
 /-- `chunk[:size]` when `size > 0` -/
 def payload (m : Msg β) : List β := m.data.take m.size.toNat
